@@ -88,6 +88,7 @@ func (c checkSchema) checkNode(node schema.Node, ss map[string]schema.Type) {
 			panic(err)
 		}
 		c.checkAdditionalPropertiesConstraint(node, ss)
+		c.checkBranchNode(node, ss)
 	case *schema.MixedNode:
 		c.checkCompatibilityOfConstraints(node)
 		c.checkLinksOfNode(node, ss) // can panic
@@ -126,7 +127,7 @@ func (c checkSchema) checkLiteralNode(node schema.Node, ss map[string]schema.Typ
 	}
 }
 
-// checkBranchNode checks an array EXAMPLE the "or" rule is written on against
+// checkBranchNode checks an array or object EXAMPLE the "or" rule is written on against
 // the alternatives of the rule, as checkLiteralNode does for a literal EXAMPLE.
 func (c checkSchema) checkBranchNode(node schema.Node, ss map[string]schema.Type) {
 	if node.Constraint(constraint.TypesListConstraintType) != nil {
